@@ -54,10 +54,13 @@ def make_variant(m, repo, dest):
     p = os.path.join(dest, m["file"])
     with open(p) as f:
         text = f.read()
-    if m["old"] not in text:
-        return False
+    pairs = m["old"] if isinstance(m["old"], list) else [(m["old"], m["new"])]
+    for old, new in pairs:
+        if old not in text:
+            return False
+        text = text.replace(old, new, 1)
     with open(p, "w") as f:
-        f.write(text.replace(m["old"], m["new"], 1))
+        f.write(text)
     return True
 
 
